@@ -80,6 +80,9 @@ impl Group for C10Sim {
             c("vh 0 g 1|act|rv 0|vh 0 g 0|act|shr|act"),
             // initial commitment: activation before validation, refused validation, then the regular flow
             c("world fresh|act|vh 0 b 0|act|vh1 0 g 0|act|act|vh 0 g 1|rv 0"),
+            // a refused channel setup leaves the stub a stub; a different invoice for an issued hash is refused
+            c("newch 2|setupbad 2 0|setupbad 2 1|newch 2|setupbad 2 2|setupbad 2 3|setupbad 3 0|forget 1"),
+            c("sinv 0 100000|sinv 0 1000|sinv 0 100000|sinv 1 0|sinv 1 5000|sinv 1 0|restart|sinv 0 1000"),
             // the channel map fills up: creation (also of an existing stub) is refused until one is forgotten
             c("newch 1|newch 2|newch 3|newch 4|newch 2|forget 2|newch 4|newch 5|restart|newch 5|forget 1|newch 5"),
             c("world perm|newch 2|newch 3|newch 5|newch 4|newch 3|forget 3|newch 4"),
@@ -93,6 +96,7 @@ impl Group for C10Sim {
         let len = rng.range(6, if tier == Tier::Quick { 14 } else { 30 }) as usize;
         let mut ops = gen_ops(rng, len);
         if rng.chance(1, 4) { ops.insert(0, "world perm".to_string()); }
+        else if rng.chance(1, 10) { ops.insert(0, "world nocp".to_string()); }
         else if rng.chance(1, 6) {
             let mut pre = vec!["world fresh".to_string()];
             if rng.chance(1, 3) { pre.push("act".to_string()); }
